@@ -549,7 +549,14 @@ def cv6(chk, prog):
             ce = strip(a[2])
             if ce.get('kind') == 'CallExpr' and callee_name(ce) == 'ceil':
                 d = strip(call_args(ce)[0])
-                if d.get('kind') == 'BinaryOperator' and d.get('opcode') == '/':
+                if d.get('kind') == 'BinaryOperator' and d.get('opcode') == '/' and not fe.is_float_type(d):
+                    chk.instance(R, 'capacity: ceil() is applied to the INTEGER division %s' % f.unit.text(d)[:60], 'refuted')
+                    chk.violation(Finding('CV6.fresh-id', rel(f.file), f.name, 'capacity-intdiv', f.unit.where(node),
+                                          'the group matrix width is ceil(%s) but that division is carried out in integers (already rounded down): '
+                                          'with objects %% groups != 0 the matrix has fewer cells than objects and some objects are placed in no group'
+                                          % f.unit.text(d)[:60]))
+                    cap_ok = True       # reported above
+                elif d.get('kind') == 'BinaryOperator' and d.get('opcode') == '/':
                     num, den = kids(d)
                     if exprs.to_poly(den) == rows:
                         nobj = exprs.to_poly(num)
